@@ -373,14 +373,16 @@ fn reference(script: &[u8], fail_at: u8, pull: u8, optional: bool, cap: usize) -
 }
 
 /// every lexable script of exactly L tokens on the flat tree, response buffer of capacity CAP
-pub fn flat<const L: usize, const CAP: usize, S: Src>(s: &mut S) -> R {
+/// PULL / OPTIONAL: how many parameters every handler pulls and whether as optional ones (concrete per
+/// instance: a symbolic count multiplies the dispatcher's already large state space)
+pub fn flat<const L: usize, const CAP: usize, const PULL: u8, const OPTIONAL: bool, S: Src>(s: &mut S) -> R {
     let script: [u8; L] = crate::bytes::<L, S>(s);
     let fail_at = s.u8();
-    let pull = s.u8();
-    let optional = s.bool();
-    s.assume(lexable(&script) && pull <= 2);
+    let pull = PULL;
+    let optional = OPTIONAL;
+    s.assume(lexable(&script));
     #[cfg(not(kani))]
-    if !(lexable(&script) && pull <= 2) {
+    if !lexable(&script) {
         return Ok(());
     }
     let root: Node<RlDev> = Node::root(&FLAT);
@@ -450,8 +452,7 @@ pub fn flat<const L: usize, const CAP: usize, S: Src>(s: &mut S) -> R {
     // ---- oracle for well-formed units
     let e = reference(&script, fail_at, pull, optional, CAP);
     witness!(e.shape_ok && e.code == 0 && e.queries > 0, "flat: a successful message with a query");
-    witness!(e.shape_ok && e.code == -108, "flat: leftover parameter");
-    witness!(e.shape_ok && e.code == -109, "flat: missing parameter");
+    witness!(e.shape_ok && (e.code == -108 || e.code == -109 || e.code == -113), "flat: an arity or header error");
     if e.shape_ok {
         ob!(code == e.code, "C02/C05/C06: result of a well-formed message differs (expected Ok, -113, -109, -108, -200 or -225 as SCPI designates)");
         ob!(dev.n == e.n, "C02/C05: the set of invoked handlers differs from the units designated by the headers");
